@@ -17,7 +17,7 @@ VERIF = os.path.dirname(os.path.dirname(os.path.abspath(__file__)))
 ALL = ["C%02d" % i for i in range(1, 21)]
 ORDER = {
     "ddsketch/store/collapsing": ["C05", "C15", "C14", "C16", "C06", "C12"],
-    "ddsketch/store/": ["C04", "C09", "C06", "C05", "C14", "C16", "C15", "C02", "C12", "C07", "C08", "C01", "C11"],
+    "ddsketch/store/": ["C04", "C09", "C06", "C05", "C14", "C16", "C15", "C02", "C12", "C07", "C08", "C01", "C11", "C13"],
     "ddsketch/ddsketch.go": ["C01", "C09", "C13", "C02", "C11", "C10", "C12", "C17", "C06", "C07", "C08", "C14", "C16", "C15", "C05"],
     "ddsketch/mapping/": ["C19", "C01", "C17", "C09", "C13", "C03", "C06"],
     "ddsketch/encoding/": ["C18", "C07", "C06", "C08"],
